@@ -167,7 +167,7 @@ func replayNative(repo, root string, r HarnessRun, v *sym.Violation, cexPath str
 	switch {
 	case strings.Contains(txt, "VF-CONFIRMED "+want):
 		return true, "reproduced natively (" + kind + " replay)"
-	case want == "no-race" && strings.Contains(txt, "WARNING: DATA RACE"):
+	case want == "no-race" && repoRaceReported(txt):
 		return true, "data race reported by the Go race detector on the native build (" + kind + ")"
 	case want == "no-panic" && strings.Contains(txt, "VF-PANIC"):
 		return true, "panic reproduced natively"
@@ -186,6 +186,32 @@ func replayNative(repo, root string, r HarnessRun, v *sym.Violation, cexPath str
 		why = "native harness did not build: " + firstLine(txt)
 	}
 	return false, why
+}
+
+// repoRaceReported: does the Go race detector's output contain a report whose two conflicting
+// accesses are not both inside harness code (zz_vf_*.go)?
+func repoRaceReported(txt string) bool {
+	for _, rep := range strings.Split(txt, "WARNING: DATA RACE")[1:] {
+		if i := strings.Index(rep, "=================="); i >= 0 {
+			rep = rep[:i]
+		}
+		lines := strings.Split(rep, "\n")
+		tops, inHarness := 0, 0
+		for i, l := range lines {
+			t := strings.TrimSpace(l)
+			if (strings.HasPrefix(t, "Write at") || strings.HasPrefix(t, "Read at") || strings.HasPrefix(t, "Previous write at") || strings.HasPrefix(t, "Previous read at") ||
+				strings.HasPrefix(t, "Atomic") || strings.HasPrefix(t, "Previous atomic")) && i+2 < len(lines) {
+				tops++
+				if strings.Contains(lines[i+2], "zz_vf_") {
+					inHarness++
+				}
+			}
+		}
+		if tops == 0 || inHarness < tops {
+			return true
+		}
+	}
+	return false
 }
 
 func threadsIn(s []int) int {
